@@ -92,7 +92,10 @@ var alsoRuns = map[string][]borrow{
 	// the marked entry lands in a store that honours its contract (C09, F2/F3); the duplicate-detection marker advances for a
 	// skipped entry (C10.U3); every entry, marked or not, is re-filed before it is applied or skipped and is folded by
 	// compaction, and restore rebuilds from it (C02.N1/N3/N4/N5); the marker and everything else survives a snapshot (C03)
-	"C07": {{prop: "C09"}, {prop: "C18", rules: []string{"F1", "F2", "F3"}}, {prop: "C10", rules: []string{"U3"}}, {prop: "C10", rules: []string{"U2"}, keyHas: "message of death"}, {prop: "C02", rules: []string{"N1", "N3", "N4", "N5", "N7", "N8"}}, {prop: "C03"}},
+	"C07": {{prop: "C09"}, {prop: "C18", rules: []string{"F1", "F2", "F3"}}, {prop: "C10", rules: []string{"U3"}}, {prop: "C10", rules: []string{"U2"}, keyHas: "message of death"}, {prop: "C02", rules: []string{"N1", "N3", "N4", "N5", "N7", "N8"}}, {prop: "C03"},
+		// the skip of a marked entry calls UpdateLastClientMessageID outside any recover: it must not panic on the line that
+		// made the first attempt panic (C06.G2 there)
+		{prop: "C06", rules: []string{"G2"}, funcPrefix: "ircserver.(*IRCServer).UpdateLastClientMessageID"}},
 	// "under every interleaving": the lock discipline of the output stream (C20 restricted to package outputstream)
 	// … and "returns exactly what was added": the batch codec is symmetric (C18.F4)
 	// … and readers always call the current stream (C04.P7)
@@ -116,7 +119,10 @@ var alsoRuns = map[string][]borrow{
 	// property quantifies over: whatever influences later output must be in the snapshot and come back unchanged (C03)
 	// … and the loops that take the first match in a map of sessions are order-independent only because nicknames are
 	// unique: only free nicknames enter the index (C14.M4)
-	"C01": {{prop: "C16", rules: []string{"V3"}, keyHas: "fresh configuration value"}, {prop: "C03"}, {prop: "C14", rules: []string{"M4"}}},
+	"C01": {{prop: "C16", rules: []string{"V3"}, keyHas: "fresh configuration value"}, {prop: "C03"}, {prop: "C14", rules: []string{"M4"}},
+		// an instance started from a snapshot is one of the instances quantified over: the snapshot state is the fold of the
+		// log into a server made for that snapshot (C02.N1)
+		{prop: "C02", rules: []string{"N1"}, keyHas: "folds into a fresh server"}},
 	// ended sessions must leave the session table, otherwise their secret keeps working
 	// … and the secret survives a snapshot unchanged (C03 obligations about the auth field)
 	"C11": {{prop: "C13", rules: []string{"E6"}, keyHas: "ending another session"}, {prop: "C17", rules: []string{"Y1", "Y2", "Y3", "Y4"}}, {prop: "C03", keyHasAny: []string{".auth", ".Auth"}},
@@ -143,7 +149,9 @@ var alsoRuns = map[string][]borrow{
 	// ended sessions leave every relation and the session table (C17.Y4)
 	// … and a restore rebuilds the derived indexes consistently (C03.K4/K4b)
 	"C14": {{prop: "C17", rules: []string{"Y4"}}, {prop: "C03", rules: []string{"K4"}}, {prop: "C03", keyHasAny: []string{"identifier literal"}},
-		{prop: "C13", rules: []string{"E6"}, keyHas: "ending another session"}},
+		{prop: "C13", rules: []string{"E6"}, keyHas: "ending another session"},
+		// membership is consistent after a restore only if every session was saved with its own channel list (C03.K11)
+		{prop: "C03", rules: []string{"K11"}}},
 	// replicas that load the configuration from a snapshot must get the same one
 	// … and the ban table must be a usable map after every way of installing a configuration (C06.G5), else the next
 	// GLINE kills the replica that restored and the others keep the ban
@@ -153,7 +161,14 @@ var alsoRuns = map[string][]borrow{
 		// a replica that cannot store a committed Config entry stops (and replays it after the restart); it does not count it as applied and keep the old configuration
 		{prop: "C02", rules: []string{"N3"}, keyHas: "store error is fatal"},
 		// "a rejected update changes nothing": the handler reports failure only when the proposal did fail (C05.A2, A5)
-		{prop: "C05", rules: []string{"A2", "A5"}, funcPrefix: "api.(*HTTP).applyMessageWait"}},
+		{prop: "C05", rules: []string{"A2", "A5"}, funcPrefix: "api.(*HTTP).applyMessageWait"},
+		// the configuration in force is the same on a replica that folded its log: compaction folds every entry, Config
+		// entries included, in log order (C02.N1 "one fold call"); whether a committed update takes effect does not depend on
+		// the applying node's clock (C01.R2 in applyRobustMessage); and what the configuration allows is asked of the
+		// configuration in force, not of a memo of earlier answers (C11.H6)
+		{prop: "C02", rules: []string{"N1"}, keyHas: "one fold call"},
+		{prop: "C01", rules: []string{"R2"}, funcPrefix: "main.(*FSM).applyRobustMessage"},
+		{prop: "C11", rules: []string{"H6"}}},
 	// a relayed line starts with a well-formed prefix: the cached prefix is refreshed whenever the nickname changes (C12.T4)
 	"C15": {{prop: "C12", rules: []string{"T4"}}, {prop: "C03", keyHasAny: []string{"ircPrefix", "IrcPrefix"}}},
 	// sessions (and the expiration they are measured against) survive a snapshot: every session is restored (C03.K7), ids keep
@@ -166,7 +181,10 @@ var alsoRuns = map[string][]borrow{
 		// the batch codec stores the keys of the recipient set: the set holds no false entries
 		{prop: "C12", rules: []string{"T1"}, keyHas: "marks recipients with true"},
 		// "the id defaults to the raft index only when absent": a proposal object is not re-used (C05.A7b)
-		{prop: "C05", rules: []string{"A7"}, keyHas: "fresh message"}},
+		{prop: "C05", rules: []string{"A7"}, keyHas: "fresh message"},
+		// "decoded identically by all readers": readers run concurrently (raft's replication goroutines, the status page)
+		// under the read lock — the space a reader decodes into is its own (C20.Q1 in the readers of the store)
+		{prop: "C20", rules: []string{"Q1"}, funcPrefix: "raftstore.(*LevelDBStore).Get"}},
 	// … and a session that somebody else ends is removed from the table only by the sweep, which runs for operators and
 	// services links: ending another session is therefore tied to that privilege (C13.E6), else the ended session lingers
 	"C17": {{prop: "C03", rules: []string{"K7"}}, {prop: "C03", keyHasAny: []string{"SessionExpiration", "LastActivity", "identifier literal", "encodes the time it was given"}},
